@@ -47,6 +47,37 @@ fn fix(c: u32) -> u32 {
     }
 }
 
+fn hash_of<T: std::hash::Hash>(x: &T) -> u64 {
+    use std::hash::Hasher;
+    let mut h = std::collections::hash_map::DefaultHasher::new();
+    x.hash(&mut h);
+    h.finish()
+}
+
+/// two strings built from the same / different code points must behave as values
+fn check_value_semantics(rep: &mut Report, a: &[u32], b: &[u32], seed: u64) {
+    let (fa, fb) = (a.iter().map(|&c| fix(c)).collect::<Vec<u32>>(), b.iter().map(|&c| fix(c)).collect::<Vec<u32>>());
+    let (sa, sa2, sb) = (SmtString::from(a), SmtString::from(a.to_vec()), SmtString::from(b));
+    let case = a.iter().map(|c| format!("{:x}", c)).collect::<Vec<_>>().join(" ");
+    rep.inc("value_semantics_probes");
+    let cl = sa.clone();
+    let bad = sa != sa2
+        || hash_of(&sa) != hash_of(&sa2)
+        || cl != sa
+        || hash_of(&cl) != hash_of(&sa)
+        || (sa == sb) != (fa == fb)
+        || sa.as_ref() != &fa[..]
+        || sa.len() != fa.len()
+        || sa.is_empty() != fa.is_empty()
+        || sa.iter().copied().collect::<Vec<u32>>() != fa
+        || (0..fa.len()).any(|i| sa.char(i) != fa[i])
+        || str_len(&sa) as usize != fa.len()
+        || (fa.is_empty() && sa != EMPTY);
+    if bad {
+        rep.violation("value-semantics", "value-semantics:SmtString", format!("SmtString built from {} does not behave as a value (==, hash, clone, as_ref, len, char, iter) against {}", show_str(a), show_str(b)), "u32s", &case, seed);
+    }
+}
+
 pub fn check_ints(rep: &mut Report, m: &mut ReManager, a: &[u32], seed: u64) {
     let case = a.iter().map(|c| format!("{:x}", c)).collect::<Vec<_>>().join(" ");
     let want: Vec<u32> = a.iter().map(|&c| fix(c)).collect();
@@ -159,6 +190,19 @@ pub fn run(p: &Params, rep: &mut Report) {
             })
             .collect();
         check_ints(rep, &mut m, &a, seed);
+        let mut b = a.clone();
+        match rng.below(4) {
+            0 => {}
+            1 => {
+                let i = rng.usize(b.len());
+                b[i] ^= 1;
+            }
+            2 => b.push(0x61),
+            _ => {
+                b.pop();
+            }
+        }
+        check_value_semantics(rep, &a, &b, seed);
         rep.eval(Some(&format!("i{}", show_str(&a))));
         rep.sample(|| format!("u32 slice {}", show_str(&a)));
     }
